@@ -41,7 +41,7 @@ def encObs : Obs → String
   | .classes css => encNatss css
 
 def modelPayload {S} (I : Impl S) (ops : List Op) : String :=
-  match run I (Store.init I) ops with
+  match run I Store.init ops with
   | .ok (_, obs) => if obs.isEmpty then "-" else joinToks (obs.map encObs)
   | .err => "DIVERGE"
   | .panic => "PANIC"
